@@ -259,6 +259,24 @@ pub fn check_c04(w: &World, obs: &Obs) -> Result<bool, String>
             None => return Err(format!("failure of rule {:?} ({:?}) is not reported as such: {:?}", w.model.rules[*i].targets, r.outcome[*i], errs)),
         }
     }
+    // what the user is shown: one line per error; a missing file or an ungenerated target is named in its line
+    let text = obs.error_text.clone().unwrap_or_default();
+    let shown: Vec<&str> = text.lines().map(|l| l.trim()).filter(|l| !l.is_empty()).collect();
+    if shown.len() != errs.len()
+    {
+        return Err(format!("the build failed with {} error(s) but the message shown to the user has {} line(s): {:?}", errs.len(), shown.len(), shown));
+    }
+    for e in errs.iter()
+    {
+        let named = match e { WErr::FileNotFound(p) | WErr::NotGenerated(p) => Some(p), _ => None };
+        if let Some(p) = named
+        {
+            if !shown.iter().any(|l| l.ends_with(&format!(": {}", p)))
+            {
+                return Err(format!("the message shown for the failed build does not name {}: {:?}", p, shown));
+            }
+        }
+    }
     // no descendant runs; independent rules are brought up to date
     let ran = obs.executed_rules(&w.model);
     for i in 0..w.model.rules.len()
